@@ -66,6 +66,10 @@ noncomputable def realCasts : Casts ℝ ℝ where
 @[simp] theorem r_neg (a : ℝ) : @Neg.neg ℝ FOps.toNeg a = -a := rfl
 @[simp] theorem r_lit (m : Nat) (s : Bool) (e : Nat) :
     @OfScientific.ofScientific ℝ FOps.toOfScientific m s e = (OfScientific.ofScientific m s e : ℝ) := rfl
+theorem r_zero : (@OfScientific.ofScientific ℝ FOps.toOfScientific 0 true 1) = 0 := by
+  rw [r_lit]; norm_num
+theorem r_one : (@OfScientific.ofScientific ℝ FOps.toOfScientific 10 true 1) = 1 := by
+  rw [r_lit]; norm_num
 @[simp] theorem r_lt (a b : ℝ) : (FOps.lt a b = true) ↔ a < b := by simp [FOps.lt]
 @[simp] theorem r_le (a b : ℝ) : (FOps.le a b = true) ↔ a ≤ b := by simp [FOps.le]
 @[simp] theorem r_beq (a b : ℝ) : (FOps.beq a b = true) ↔ a = b := by simp [FOps.beq]
@@ -102,6 +106,19 @@ theorem pushCanon_of_nonneg {x : ℝ} (h : 0 ≤ x) : pushCanon x = x := by
     subst this
     simp only [lt_self_iff_false, r_storable, if_false, r_lit]
     norm_num
+
+/-- whatever is pushed, `StrainsVec` stores a value `≥ 0` -/
+theorem pushCanon_nonneg (x : ℝ) : 0 ≤ pushCanon x := by
+  unfold pushCanon
+  by_cases hx : 0 < x
+  · simp [hx]; exact hx.le
+  · simp only [r_storable, hx, if_false]; rw [r_zero]
+
+theorem exportPeaksV_nonneg {σ : Type} (st : StateV ℝ σ) : ∀ p ∈ exportPeaksV st, 0 ≤ p := by
+  intro p hp
+  unfold exportPeaksV at hp
+  obtain ⟨x, _, rfl⟩ := List.mem_map.mp hp
+  exact pushCanon_nonneg x
 
 /-- non-negative peaks are exported unchanged -/
 theorem exportPeaksV_of_nonneg {σ : Type} {st : StateV ℝ σ} (hp : ∀ p ∈ st.peaks, 0 ≤ p)
